@@ -518,17 +518,23 @@ pub fn check(case: &Case) -> Outcome {
             }
             let (Some(f), Some(r)) = (&st.formula, rect) else { continue };
             let content = um.get_cell_content(DATA, r.0, r.1).unwrap_or_default();
-            // once the probe formula has left the top-left cell of the range (it was cut away on
-            // its own) it stays out of the comparison: a formula with the same id that shows up
-            // there later is a *copy* (translated by the paste), not the probe
+            // once the probe formula has been *cut* away from the top-left cell of the range on
+            // its own, the rule formula has been re-pointed at the cells the probe moved to and is
+            // no longer "the formula of the first cell": the comparison ends for this format. (A
+            // copy of the probe is still a faithful instance of the rule for the cell it lands
+            // on, and row/column edits move range and probe together.)
             let Some(probe_text) = content.strip_prefix('=') else {
                 o = o.label("formula-probe-not-at-anchor");
-                probe_dead[j] = true;
+                if matches!(op, Op::CopyPaste { cut: true, .. }) {
+                    probe_dead[j] = true;
+                }
                 continue;
             };
             if !probe_text.contains(&spec.id.to_string()) {
                 o = o.label("formula-probe-not-at-anchor");
-                probe_dead[j] = true;
+                if matches!(op, Op::CopyPaste { cut: true, .. }) {
+                    probe_dead[j] = true;
+                }
                 continue;
             }
             let f_text = f.strip_prefix('=').unwrap_or(f);
